@@ -106,10 +106,15 @@ def run_property(prop, tier):
     # native confirmation of every counterexample
     violations, known_hits, unconfirmed = [], [], []
     for f in findings:
+        k = next((k for k in known if k["key"] == f.key), None)
+        if k is not None and tier == "quick":
+            # a listed finding was confirmed natively when it was recorded; the quick tier does not
+            # spend minutes re-confirming it (the thorough tier does)
+            known_hits.append((f, k))
+            continue
         if f.confirmed is None:
             confirm(prop, f, spec.get("timeout", {}).get(tier, TIER_TIMEOUT[tier]))
         if f.confirmed:
-            k = next((k for k in known if k["key"] == f.key), None)
             (known_hits if k else violations).append((f, k))
         else:
             unconfirmed.append(f)
